@@ -35,9 +35,7 @@ def run(F, rep, tier):
     for vt in vts:
         h = F.hir[vt]
         params = [p.get("name") for p in h.get("params", [])]
-        if len(params) != 3 or not all(c15.compared_only(F, h, p) for p in params):
-            rep.undecided(r1, "bounds", "%s uses its parameters other than in comparisons with constants" % vt)
-            continue
+        cells_ok = len(params) == 3 and all(c15.compared_only(F, h, p) for p in params)
         reps = (0, 1, 22, 23, 24, 25, 58, 59, 60, 61, 254, 255)
         probs, und = [], 0
         for hh in reps:
@@ -52,8 +50,9 @@ def run(F, rep, tier):
                         probs.append("%02d:%02d:%02d is %s" % (hh, mm, ss, "accepted" if got[1] else "rejected"))
         if probs:
             rep.violation(r1, "bounds", "%s: %s; a time of day requires hour < 24, minute < 60 and second < 60" % (vt, "; ".join(probs)), "%s:%s" % (h["file"], h["line"]))
-        elif und:
-            rep.undecided(r1, "bounds", "%s does not fold to a boolean on %d representative(s)" % (vt, und))
+        elif und or not cells_ok:
+            rep.undecided(r1, "bounds", "%s %s" % (vt, "does not fold to a boolean on %d representative(s)" % und if und else
+                                                   "agrees on all representatives but uses its parameters other than in comparisons with constants"))
         else:
             rep.ok(r1, "bounds", "%d cells folded: hour < 24 && minute < 60 && second < 60" % len(reps) ** 3)
     # gates: every function that consults is_valid_time must not build a time of day when the answer is false
@@ -77,6 +76,9 @@ def run(F, rep, tier):
             rep.ok(r1, key, "%d path(s) folded with is_valid_time = false: none builds a FeelTime" % len(outs))
     c15.offset_rule(F, rep)
     c15.unit_constants_rule(F, rep)
+    # "impossible calendar dates evaluate to null": the calendar tables and the validity gate of C15
+    c15.calendar_tables_rule(F, rep)
+    c15.date_validity_rule(F, rep)
     duration_literal_rule(F, rep)
     duration_text_rule(F, rep)
 
